@@ -44,7 +44,30 @@ func c19GenFile(r *Rng, idx int, force int) c19File {
 	var tables []string // global tables that can get members
 	var ltables []string
 	for i := 0; i < nStat; i++ {
-		switch r.Intn(22) {
+		switch r.Intn(23) {
+		case 22:
+			// compact formatting: a table and the members added to it on one line
+			v, f1, f2 := nm("OneLineTab"), nm("onelinefn"), nm("onelinefn")
+			local := ""
+			kind := "global-table"
+			if r.Chance(1, 3) {
+				local, kind = "local ", "top-level-local-table"
+			}
+			sep := r.Pick([]string{" ", "; ", ";"})
+			switch r.Intn(3) {
+			case 0:
+				sb.WriteString(fmt.Sprintf("%s%s = {}%sfunction %s.%s(s) return s end%sfunction %s:%s(s) return s end\n", local, v, sep, v, f1, sep, v, f2))
+			case 1:
+				sb.WriteString(fmt.Sprintf("%s%s = {}%s%s.%s = function(s) return s end%sfunction %s.%s() end\n", local, v, sep, v, f1, sep, v, f2))
+			default:
+				sb.WriteString(fmt.Sprintf("%s%s = { depth = %d }%sfunction %s:%s() end function %s.%s(a, b) return a end\n", local, v, i, sep, v, f1, v, f2))
+			}
+			if local == "" {
+				tables = append(tables, v)
+			} else {
+				ltables = append(ltables, v)
+			}
+			wants = append(wants, want{v, kind, local == ""}, want{f1, "function-member-added-on-the-line-of-its-table", true}, want{f2, "function-member-added-on-the-line-of-its-table", true})
 		case 0:
 			v := nm("Loc")
 			sb.WriteString(fmt.Sprintf("local %s = %d\n", v, i))
